@@ -152,7 +152,16 @@ func c36(c *rig.Ctx) {
 	x := srv.MustOpen("")
 	var dbs []*c36db
 	snaps := map[string]*c36snap{}
+	only := map[string]bool{} // development aid: VQUERY_C36_ONLY=30,31 restricts the run to these database indexes
+	for _, f := range strings.Split(os.Getenv("VQUERY_C36_ONLY"), ",") {
+		if f != "" {
+			only[f] = true
+		}
+	}
 	for i := 0; i < n; i++ {
+		if len(only) > 0 && !only[fmt.Sprint(i)] {
+			continue
+		}
 		r := c.SubRand("c36", i)
 		db := genC36(r, fmt.Sprintf("c36_%d", i))
 		c.Case(fmt.Sprintf("c36/%d", i), map[string]any{"db": db.Name, "regenerate": fmt.Sprintf("SubRand(\"c36\", %d)", i), "dump_flags": db.DumpArg})
@@ -195,6 +204,7 @@ func c36(c *rig.Ctx) {
 	c.Note(fmt.Sprintf("timing: phase 1 (build + snapshot %d databases) %.1fs", n, t1.Sub(t0).Seconds()))
 
 	// ---- phase 2: dump every database on every route and load the dumps into empty repositories -------------------------
+	loadOut := map[string]string{}             // db -> what the (--continue) SQL load printed
 	loaded := map[string]map[string][]string{} // route -> db -> tables loaded
 	for _, route := range c36Routes {
 		loaded[route] = map[string][]string{}
@@ -232,9 +242,8 @@ func c36(c *rig.Ctx) {
 					// again into a fresh empty repository with --continue (the failure above stays reported).
 					dropRepo(dst)
 					rig.Must(mustCLI(dst, home, "init"))
-					if code, out := doltCLI(dst, home, "sql", "--continue", "--file", file); code != 0 {
-						c.Note("load --continue exit " + fmt.Sprint(code) + ": " + truncate(out, 300))
-					}
+					_, out2 := doltCLI(dst, home, "sql", "--continue", "--file", file)
+					loadOut[db.Name] = out2
 				} else {
 					cnt.add("sql.loads_ok", 1)
 				}
@@ -319,7 +328,19 @@ func c36(c *rig.Ctx) {
 					for name, want := range pair[0] {
 						cnt.add("sql."+kind+"s_compared", 1)
 						if have := pair[1][name]; have != want {
-							l.violation("c36/sql/"+kind+"-differs", kind+" "+name+" differs between source and copy", map[string]any{"db": db.Name, "source": want, "copy": have})
+							key := "c36/sql/" + kind + "-differs"
+							if kind == "procedure" { // keyed by cause
+								switch lo := loadOut[db.Name]; {
+								case strings.HasPrefix(have, "ERROR") && strings.Contains(lo, "for query delimiter ") && strings.Contains(lo, "near 'delimiter'"):
+									// `dolt sql --file` did not recognise the dump's own `delimiter END_PROCEDURE` directive and ran it as SQL
+									key += "/delimiter-directive-not-recognised"
+								case strings.HasPrefix(have, "ERROR"):
+									key += "/absent"
+								default:
+									key += "/text-changed"
+								}
+							}
+							l.violation(key, kind+" "+name+" differs between source and copy", map[string]any{"db": db.Name, "source": want, "copy": have, "load_output_tail": tailStr(loadOut[db.Name], 1500)})
 						}
 					}
 				}
@@ -335,6 +356,7 @@ func c36(c *rig.Ctx) {
 		s := snaps[db.Name]
 		c.Sample(map[string]any{"db": db.Name, "tables": len(s.Tables), "create_strs": truncate(s.Tables["strs"].Create, 1500), "dump_flags": db.DumpArg})
 	}
+	c36DelimiterBoundaries(c, root, home)
 	cnt.add("suppressed_repeat_violations", l.sup)
 	cnt.flush(c, "c36.")
 	for _, route := range c36Routes {
@@ -431,6 +453,13 @@ func diffRows(route string, t *c36table, want, have *c36snapTable) (string, stri
 		}
 	}
 	return "", ""
+}
+
+func tailStr(s string, n int) string {
+	if len(s) > n {
+		return "..." + s[len(s)-n:]
+	}
+	return s
 }
 
 // dropRepo removes a repository directory AND its entry in dolt's in-process singleton database cache (the CLI runs
